@@ -37,25 +37,41 @@ def mc_parts(quick):
 
 
 def gen_parts(quick):
-    base = dict(REAL, BurstMode="FALSE", Roles="{TRUE, FALSE}")
+    base = dict(REAL, BurstMode="FALSE", Roles="{TRUE, FALSE}", Script="<- ScriptNone")
+    allops = '{"send", "gsend", "quota", "ack", "acktop", "adv", "tick", "discard", "phase"}'
     est_loss = dict(base, Start='"est"', Roles="{FALSE}", Depth=5 if quick else 6, MaxPk=4, GSizes="{1200}", GDts="{10000}", GDelays="{0}",
                     GCes="{}", GSpaces="{3}", GFlagSet="{1}", Ops='{"send", "ack", "adv", "tick"}')
-    est_cc = dict(base, Start='"est"', Roles="{TRUE}", Depth=4 if quick else 5, MaxPk=3, GSizes="{1200, 300}", GDts="{10000, 60000}", GDelays="{0, 8000}",
-                  GCes="{1}", GSpaces="{3}", GFlagSet="{1, 2, 3}", Ops='{"send", "gsend", "quota", "ack", "adv", "tick"}')
-    hs = dict(base, Start='"fresh"', Depth=5 if quick else 6, MaxPk=2, GSizes="{1200}", GDts="{60000}", GDelays="{0}",
-              GCes="{}", GSpaces="{1, 2, 3}", GFlagSet="{1}", Ops='{"send", "acktop", "adv", "tick", "discard", "phase"}')
+    est_cc = dict(base, Start='"est"', Roles="{TRUE}", Depth=7 if quick else 8, Script="<- ScriptCc" if quick else "<- ScriptCc2", MaxPk=3,
+                  GSizes="{1200}", GDts="{10000, 60000}", GDelays="{8000}" if quick else "{0, 8000}", GCes="{1}", GSpaces="{3}", GFlagSet="{1, 2, 3}", Ops=allops)
+    hs = dict(base, Start='"fresh"', Depth=6 if quick else 7, Script="<- ScriptHs" if quick else "<- ScriptHs2", MaxPk=2, GSizes="{1200}", GDts="{60000}",
+              GDelays="{0}", GCes="{}", GSpaces="{1, 2, 3}", GFlagSet="{1}", Ops=allops)
     return [("allpaths/est-loss", est_loss, None), ("allpaths/est-cc", est_cc, None), ("allpaths/handshake", hs, None)]
 
 
 def sim_parts(quick):
-    base = dict(REAL, Roles="{TRUE, FALSE}", GSizes="{1200, 300}", GDts="{1000, 10000, 60000, 400000}", GDelays="{0, 8000, 40000}", GCes="{1, 3}",
+    base = dict(REAL, Roles="{TRUE, FALSE}", Script="<- ScriptNone", GSizes="{1200, 300}", GDts="{1000, 10000, 60000, 400000}", GDelays="{0, 8000, 40000}", GCes="{1, 3}",
                 GSpaces="{1, 2, 3}", GFlagSet="{1, 2, 3}", MaxPk=40)
     deep_est = dict(base, Start='"est"', BurstMode="TRUE", Depth=60, GSpaces="{3}",
                     Ops='{"send", "gsend", "burst", "quota", "ack", "acktop", "adv", "tick"}')
     deep_hs = dict(base, Start='"fresh"', BurstMode="TRUE", Depth=40,
                    Ops='{"send", "gsend", "quota", "ack", "acktop", "adv", "tick", "discard", "phase"}')
-    n = 250 if quick else 4000
+    n = 150 if quick else 3000
     return [("walks/est", deep_est, {"num": n, "depth": 70}), ("walks/handshake", deep_hs, {"num": n, "depth": 50})]
+
+
+def thin(path, keep):
+    """TLC's simulator evaluates the Emit invariant on every candidate successor of a walk's last step; keep a few per walk."""
+    seen, out = {}, []
+    with open(path) as f:
+        for line in f:
+            ops = json.loads(line)
+            k = json.dumps(ops[:-1])
+            seen[k] = seen.get(k, 0) + 1
+            if seen[k] <= keep:
+                out.append(line)
+    with open(path, "w") as f:
+        f.writelines(out)
+    return len(out)
 
 
 def is_hit(line):
@@ -94,6 +110,8 @@ def run(tier, rep):
     for part, consts, sim in gen_parts(quick) + sim_parts(quick):
         beh = os.path.join(wd, "beh_%s.ndjson" % part.replace("/", "_"))
         g = vlib.tlc_gen(PID, "Gen_Recovery", GEN_CFG, consts, beh, simulate=sim)
+        if sim:
+            g["behaviours"] = thin(beh, 3)
         rep.add_mc("Gen_Recovery/" + part, g)
         _drive_validate(rep, part, beh)
     rep.cov["rule"] = ("environment schedules for one path's controller -- sends in three packet-number spaces (sizes, ack-eliciting / in-flight flags, "
